@@ -225,6 +225,11 @@ def _eval_expr(expr: ast.AST, env: Dict[str, object]):
             k = eval_expr(expr.args[0], env)
             return recv.get(k, eval_expr(expr.args[1], env) if len(expr.args) == 2 else None)
         raise Undecided(f"cannot evaluate {norm(expr)}")
+    if isinstance(expr, ast.Call) and isinstance(expr.func, ast.Attribute) and expr.func.attr in ("items", "keys", "values") and not expr.args and not expr.keywords:
+        recv = eval_expr(expr.func.value, env)
+        if isinstance(recv, dict):
+            return tuple(getattr(recv, expr.func.attr)())
+        raise Undecided(f"cannot evaluate {norm(expr)}")
     if isinstance(expr, ast.Call) and isinstance(expr.func, ast.Name):
         fn = expr.func.id
         if fn == "abs" and len(expr.args) == 1:
